@@ -68,7 +68,7 @@ package workflow
 //@   modifies nothing
 //@   uses foldStatus_undefined_absorbs
 //@   ensures len(roles) == 0 ==> status == task.UNDEFINED
-//@   ensures len(roles) > 0 ==> status == foldStatus(roles, len(roles))
+//@   ensures len(roles) > 0 ==> status == old(foldStatus(roles, len(roles)))
 //@   loop 1 invariant #i >= -1 && #i < len(roles)
 //@   loop 2 invariant #i >= -1 && #i < len(roles) - 1
 //@   loop 2 invariant status == foldStatus(roles, #i + 2)
